@@ -91,6 +91,7 @@ type Engine struct {
 	ndOcc   map[string]int
 	clock   *Term
 	tickPreload bool
+	tickAll     bool
 	idShuffle   bool
 	pending []*PendingGo
 	cfgs    map[*ssa.Function]*FuncCFG
